@@ -58,27 +58,33 @@ theorem scalB_iff (c : Coll) : scalB c = true ↔ ScalarInv c := by
     | false => left; rfl
     | true => right; exact h ix hix hu
 
-/-! ### counterexample 1: a dotted index path that dead-ends in a scalar is not a null key -/
+/-! ### counterexample 1: a stored value that looks like a query operator
 
-/-- unique index on `a.b` -/
-def cexIx : Index := Index.mk "a.b_1" [("a.b", Val.int 1)] true false none none
+(The former witness, a dotted index path that dead-ends in a scalar — finding `deadend-null` —
+was repaired together with the matcher.) -/
 
-/-- `{_id: 1, b: 1}`: no `a.b`, key `[null]` -/
+/-- unique index on `a` -/
+def cexIx : Index := Index.mk "a_1" [("a", Val.int 1)] true false none none
+
+/-- `{_id: 1, a: {$size: "x"}}` -/
 def cexColl : Coll :=
-  { docs := [(.int 1, .doc [("_id", .int 1), ("b", .int 1)])], indexes := [cexIx] }
+  { docs := [(.int 1, .doc [("_id", .int 1), ("a", .doc [("$size", .str "x")])])],
+    indexes := [cexIx] }
 
-/-- `insert_one({_id: 2, a: ""})`: no `a.b` either (the path runs into a string) — the look-up
-    `{a.b: null}` of `_ensure_uniques` does not match it (the matcher's dead-end defect, C01) -/
-def cexOp : Val := .arr [.str "insert_one", .doc [("_id", .int 2), ("a", .str "")]]
+/-- `insert_one({_id: 2, a: {$size: "x"}})`: the same key — but the look-up
+    `{a: {$size: "x"}}` of `_ensure_uniques` is read as the OPERATOR `$size` and matches nothing
+    (known finding `operator-like-value`) -/
+def cexOp : Val :=
+  .arr [.str "insert_one", .doc [("_id", .int 2), ("a", .doc [("$size", .str "x")])]]
 
-theorem cex_before : uniqB cexColl = true ∧ scalB cexColl = true := by decide +kernel
+theorem cex_before : uniqB cexColl = true ∧ scalB cexColl = false := by decide +kernel
 
 theorem cex_after : uniqB (stepColl {} 0 cexColl cexOp).1 = false ∧
     scalB (stepColl {} 0 cexColl cexOp).1 = false := by
   decide +kernel
 
 /-- "every operation preserves `UniqInv`" is false without a domain hypothesis (known finding
-    `deadend-null`) -/
+    `operator-like-value`) -/
 theorem step_uniq_false :
     ¬ (∀ (cfg : Cfg) (now : Int) (c : Coll) (op : Val), UniqInv c → UniqInv (stepColl cfg now c op).1) := by
   intro H
